@@ -562,3 +562,102 @@ fn nb_gen_comment_inner() {
     }
     println!("NB-RESULT name=nb_gen_comment_inner status=ok cases={} key=- detail=non-silent COMMENT mentioning a non-silent rule: all strings<={} tokens", cases, l);
 }
+
+// ---- grammars 4 and 5: ONLY WHITESPACE defined / ONLY COMMENT defined (the generator has a separate arm for each case), with
+// skip rules whose own body contains a repetition (which must not skip inside itself: skip rules run atomically) ----------------
+mod p4 {
+    #[derive(pest_derive::Parser)]
+    #[grammar_inline = r#"
+WHITESPACE = { " "+ }
+word = @{ ('a'..'b')+ }
+main = { word ~ word* }
+pairr = { word ~ "," ~ word }
+atom = ${ word ~ inner4 }
+inner4 = !{ word ~ word }
+"#]
+    pub struct P;
+}
+mod t4 {
+    use pest_typed_derive::TypedParser;
+    #[derive(TypedParser)]
+    #[grammar_inline = r#"
+WHITESPACE = { " "+ }
+word = @{ ('a'..'b')+ }
+main = { word ~ word* }
+pairr = { word ~ "," ~ word }
+atom = ${ word ~ inner4 }
+inner4 = !{ word ~ word }
+"#]
+    pub struct T;
+}
+mod p5 {
+    #[derive(pest_derive::Parser)]
+    #[grammar_inline = r#"
+COMMENT = { "%"+ }
+word = @{ ('a'..'b')+ }
+main = { word ~ word* }
+pairr = { word ~ "," ~ word }
+atom = ${ word ~ inner4 }
+inner4 = !{ word ~ word }
+"#]
+    pub struct P;
+}
+mod t5 {
+    use pest_typed_derive::TypedParser;
+    #[derive(TypedParser)]
+    #[grammar_inline = r#"
+COMMENT = { "%"+ }
+word = @{ ('a'..'b')+ }
+main = { word ~ word* }
+pairr = { word ~ "," ~ word }
+atom = ${ word ~ inner4 }
+inner4 = !{ word ~ word }
+"#]
+    pub struct T;
+}
+macro_rules! check_skip_only {
+    ($p:ident, $t:ident, $gname:expr, $name:ident, $s:expr, $cases:expr) => {{
+        let s: &str = $s;
+        *$cases += 1;
+        let key = || format!("{},rule={},input={:?}", $gname, stringify!($name), s);
+        fn fp(p: pest::iterators::Pair<'_, $p::Rule>) -> Tree { let sp = p.as_span(); Tree { rule: format!("{:?}", p.as_rule()), start: sp.start(), end: sp.end(), children: p.into_inner().map(fp).collect() } }
+        fn ft(t: &ThinToken<$t::Rule>) -> Tree { Tree { rule: format!("{:?}", t.rule), start: t.start, end: t.end, children: t.children.iter().map(ft).collect() } }
+        fn pr(t: &Tree) -> Tree { let atomic = ["word", "atom", "WHITESPACE", "COMMENT"].contains(&t.rule.as_str()); Tree { rule: t.rule.clone(), start: t.start, end: t.end, children: if atomic { vec![] } else { t.children.iter().map(pr).collect() } } }
+        let pest_res: Option<(usize, Tree)> = match $p::P::parse($p::Rule::$name, s) { Ok(mut pairs) => { let top = pairs.next().unwrap(); Some((top.as_span().end(), fp(top))) } Err(_) => None };
+        let tp = $t::pairs::$name::try_parse_partial(s);
+        let tc = $t::pairs::$name::try_check_partial(s);
+        let typed_res = match &tp { Ok((pos, node)) => Some((pos.pos(), ft(&node.as_thin_token()))), Err(_) => None };
+        if pest_res.as_ref().map(|x| x.0) != typed_res.as_ref().map(|x| x.0) { return Err(format!("{} detail=C01/C07: pest {:?} vs typed {:?} (verdict/offset)", key(), pest_res.as_ref().map(|x| x.0), typed_res.as_ref().map(|x| x.0))); }
+        if tc.as_ref().ok().map(|p| p.pos()) != typed_res.as_ref().map(|x| x.0) { return Err(format!("{} detail=C03: check and parse disagree", key())); }
+        if let (Some((_, pt)), Some((_, tt))) = (&pest_res, &typed_res) {
+            if pr(pt) != *tt { return Err(format!("{} detail=C02: pair tree differs: pest(pruned) {:?} vs typed {:?}", key(), pr(pt), tt)); }
+            if !nested_ok(tt) { return Err(format!("{} detail=C15: spans not nested/ordered {:?}", key(), tt)); }
+        }
+    }};
+}
+fn all_rules45(s4: &str, s5: &str, cases: &mut u64) -> Result<(), String> {
+    check_skip_only!(p4, t4, "grammar4(WHITESPACE only)", main, s4, cases);
+    check_skip_only!(p4, t4, "grammar4(WHITESPACE only)", pairr, s4, cases);
+    check_skip_only!(p4, t4, "grammar4(WHITESPACE only)", atom, s4, cases);
+    check_skip_only!(p4, t4, "grammar4(WHITESPACE only)", inner4, s4, cases);
+    check_skip_only!(p5, t5, "grammar5(COMMENT only)", main, s5, cases);
+    check_skip_only!(p5, t5, "grammar5(COMMENT only)", pairr, s5, cases);
+    check_skip_only!(p5, t5, "grammar5(COMMENT only)", atom, s5, cases);
+    check_skip_only!(p5, t5, "grammar5(COMMENT only)", inner4, s5, cases);
+    Ok(())
+}
+#[test]
+fn nb_gen_skip_only() {
+    let l = bound(7);
+    let mut cases = 0u64;
+    for s in strings(&["a", "b", ",", " "], l).iter() {
+        let s5 = s.replace(' ', "%");
+        let r = std::panic::catch_unwind(std::panic::AssertUnwindSafe(|| all_rules45(s, &s5, &mut cases)));
+        match r {
+            Ok(Ok(())) => {}
+            Ok(Err(e)) => { println!("NB-RESULT name=nb_gen_skip_only status=fail cases={} key={}", cases, e); return; }
+            Err(_) => { println!("NB-RESULT name=nb_gen_skip_only status=fail cases={} key=input={:?} detail=C09: panic", cases, s); return; }
+        }
+    }
+    println!("NB-RESULT name=nb_gen_skip_only status=ok cases={} key=- detail=grammars defining ONLY a non-silent WHITESPACE = {{\" \"+}} / ONLY a non-silent COMMENT = {{\"%\"+}}: 4 rules each x all strings<={} chars over {{a,b,comma,blank}}: verdict/offset/pair tree vs pest, check==parse", cases, l);
+}
